@@ -24,9 +24,45 @@ theorem next_eq (cc : CharClass) (P : Profile) (s : List Char) :
   intro x hx
   exact argsLoop_fuel_irrel cc P [] hx (by simp)
 
-theorem argB_close (cc : CharClass) (P : Profile) (r : List Char) (acc : List Piece) :
+/-- does not start with `)` -/
+def NoParenHead (s : List Char) : Prop := ∀ t, s ≠ ')' :: t
+
+theorem doubledClose_ne (P : Profile) {c : Char} (r : List Char) (hc : c ≠ ')') : doubledClose P c r = none := by
+  simp [doubledClose, hc]
+
+theorem doubledClose_noParen (P : Profile) (c : Char) {r : List Char} (hr : NoParenHead r) :
+    doubledClose P c r = none := by
+  unfold doubledClose
+  split
+  · unfold doubled
+    split
+    · rename_i d r'
+      split
+      · rename_i hd; subst hd; exact absurd rfl (hr r')
+      · rfl
+    · rfl
+  · rfl
+
+/-- the closing parenthesis of an argument (what follows does not start with `)`) -/
+theorem argB_close (cc : CharClass) (P : Profile) (r : List Char) (acc : List Piece) (hr : NoParenHead r) :
     argB cc P (')' :: r) acc = .ok acc r := by
-  simp [argB, argBody]
+  unfold argB
+  rw [argBody_succ_none cc P _ ')' r acc (doubledClose_noParen P ')' hr)]
+  simp
+
+/-- before the repair of F6a the first `)` always closed -/
+theorem argB_close_unfixed (cc : CharClass) (P : Profile) (hP : P.doubledCloseParen = false) (r : List Char)
+    (acc : List Piece) : argB cc P (')' :: r) acc = .ok acc r := by
+  unfold argB
+  rw [argBody_succ_none cc P _ ')' r acc (by simp [doubledClose, hP])]
+  simp
+
+/-- repair of F6a: a doubled `))` inside an argument is the piece `Text(")")` -/
+theorem argB_dbl (cc : CharClass) (P : Profile) (hP : P.doubledCloseParen = true) (r : List Char)
+    (acc : List Piece) : argB cc P (')' :: ')' :: r) acc = argB cc P r (acc ++ [.text [')']]) := by
+  unfold argB
+  rw [argBody_succ_some cc P _ ')' (')' :: r) acc r (by simp [doubledClose, hP, doubled])]
+  exact argBody_fuel_irrel cc P _ (by simp; omega) (by simp)
 
 theorem argB_nil (cc : CharClass) (P : Profile) (acc : List Piece) :
     argB cc P [] acc = .fail eUnclosedParen [] := by
@@ -40,7 +76,7 @@ theorem argB_step (cc : CharClass) (P : Profile) (c : Char) (r : List Char) (acc
   rw [hn] at hs
   simp only [PR.NextShrinks] at hs
   unfold argB
-  rw [argBody]
+  rw [argBody_succ_none cc P _ c r acc (doubledClose_ne P r hc)]
   simp only [hc, if_false]
   have : nextWith cc P (fun x => argsLoop cc P (c :: r).length x []) (c :: r) = .ok (some p) r' := hn
   rw [this]
